@@ -73,6 +73,25 @@ The behaviour must be identical for ALL inputs, including exceptions raised, eva
 Never use `git stash`. Python: /venv/bin/python. No network. Leave the worktree clean. In your final answer list the four changes (one line each) and confirm the suite result for each.
 """
 
+FEATURE = """You are helping test a verification tool for the open-source Python library freelawproject/eyecite (legal citation extractor). You work ONLY inside your own scratch git worktree at {wt} (package in {wt}/eyecite, tests in {wt}/tests). Do NOT read or touch /repo, /verif, or any other {root}/* directory. Write outputs to {out}/.
+
+YOUR TASK: produce THREE independent, realistic commits (each a separate patch against the unmodified checkout) to the file(s) {files} of the kind a maintainer really merges: a small FEATURE, a BUG FIX, a robustness improvement, a performance optimisation, better error messages/logging, or support for one more input form. Unlike a refactoring, each commit MAY change observable behaviour in the way its description says -- but it must keep EVERY ONE of the library's semantic properties listed below true for ALL inputs. In other words: a good commit that a property-based test-suite for these properties would accept.
+
+THE PROPERTIES THAT MUST STILL HOLD (for all inputs, configurations, histories, hash seeds, threads):
+{props}
+
+For each commit N in {{1,2,3}}:
+  - start from a clean tree (`git -C {wt} checkout -- .`), edit only files under eyecite/,
+  - run the full suite: `cd {wt} && /venv/bin/python -m pytest -q -p no:cacheprovider --timeout=900 tests` (must be 50 passed),
+  - save `git -C {wt} diff > {out}/patchN.diff`,
+  - write {out}/notesN.md: the commit message you would write, what behaviour changes, and -- property by property, one line each for the properties the change could plausibly touch -- why the property still holds for all inputs. Be self-critical: if you find that a property would break for some rare input, fix the commit or choose another one. Where cheap, test your argument with a small script (do not save it).
+  - restore the clean tree.
+
+Make the three commits different in kind and touch real logic (not only comments/docstrings). Prefer changes near the code that the properties talk about (extraction helpers, tokenizers, resolution, annotation, cleaning, models), because that is where a careless change would break a property and a careful one does not.
+
+Never use `git stash`. Python: /venv/bin/python. No network. Leave the worktree clean. In your final answer list the three commits (one line each) and confirm the suite result for each.
+"""
+
 THEMES = {
     "a": "realistic maintenance commits rather than pure reshuffling -- e.g. (i) replace a hand-written helper by an equivalent standard-library function (itertools, functools, operator, collections, dataclasses, string, textwrap, unicodedata-free ones) or vice versa; (ii) add an optional keyword parameter with a default that preserves today's behaviour exactly and thread it through one call; (iii) add input validation/logging/debug output that cannot trigger on valid inputs of the documented types; (iv) micro-optimisations: hoisting invariant computations out of loops, pre-compiling a regex at module level, caching a pure function of immutable arguments with functools.lru_cache, binding attributes to locals, replacing repeated list concatenation by a single join; (v) defensive copies; (vi) type-annotation tightening with typing.cast / assert isinstance on values that always have that type.",
     "b": "code motion across functions and modules -- e.g. move a private helper to another module of the package (updating imports), turn a nested function into a module-level one or a staticmethod (or back), split a long function into two or three helpers that pass state through return values or a small NamedTuple/dataclass, merge two helpers, convert a loop with flags into early returns inside a helper, replace an if/elif chain by a dispatch table of callables, introduce a generator that yields what a loop used to append, replace tuple-unpacking by attribute access on a NamedTuple.",
@@ -116,6 +135,14 @@ def main():
             quant = q.get("text", "") if isinstance(q, dict) else str(q)
             (root / f"{pid}.prompt").write_text(BREAK.format(wt=wt, root=root, out=out, pid=pid, title=p["title"], statement=p["statement"], quant=quant,
                                                               taken="\n".join(taken) or " (none)"))
+    elif kind == "feature":
+        mods = sys.argv[3:] or list(MODULES)
+        plist = "\n".join(f" - {pid}: {p['title']}. {p['statement']}" for pid, p in props.items())
+        for m in mods:
+            wt, out = root / f"F-{m}", root / f"F-{m}-out"
+            sh("git", "-C", "/repo", "worktree", "add", "-q", "--detach", str(wt), "HEAD")
+            out.mkdir(exist_ok=True)
+            (root / f"F-{m}.prompt").write_text(FEATURE.format(wt=wt, root=root, out=out, files=MODULES[m], props=plist))
     else:
         theme = sys.argv[3]
         mods = sys.argv[4:] or list(MODULES)
